@@ -172,7 +172,7 @@ fn decode_packed(bytes: &[u8], n: usize) -> Seq {
     (0..n).map(|i| (bytes[i / 4] >> (2 * (i % 4))) & 3).collect()
 }
 
-fn check(c: &Case) -> CheckResult {
+pub fn check(c: &Case) -> CheckResult {
     let mut d = DnaString::new();
     let mut m: Seq = Vec::new();
     same("new", &d, &m)?;
@@ -360,6 +360,7 @@ fn check(c: &Case) -> CheckResult {
         .label(c.set.len() >= 2, "packed_set>=2"))
 }
 
+#[cfg(not(fuzzing))]
 pub fn jobs(_env: &Env) -> Vec<Box<dyn Job>> {
     (0..16)
         .map(|i| {
